@@ -144,7 +144,10 @@ fn vp_native_target_and_host_matrix_body() {
     // the request may have been prepared for another URL than the one of this hop (redirects): the target form follows the hop
     for u in urls.iter().map(|s| s.as_str()) { for p in proxies { for orig in [None, Some("http://orig.test/o?first=1"), Some("https://orig.test:8443/o")] {
         if orig.is_some() && (u.len() % 7 != 0) && std::env::var("VP_TIER").as_deref() != Ok("thorough") { continue; }   // quick tier: a seventh of the shapes for the cross-scheme hops
-        let mut req = crate::RequestBuilder::new(http::Method::GET, orig.unwrap_or(u)).prepare();
+        // the caller may have put Host values of its own into the request (0, 1 or 2 of them): the request still carries exactly one
+        let mut rb = crate::RequestBuilder::new(http::Method::GET, orig.unwrap_or(u));
+        for k in 0..(u.len() % 3) { rb = rb.header_append("Host", if k == 0 { "caller-one.example" } else { "caller-two.example:81" }); }
+        let mut req = rb.prepare();
         let url = Url::parse(u).unwrap();
         let proxy = p.map(|s| Url::parse(s).unwrap());
         let host_url = match (url.scheme(), &proxy) { ("http", Some(px)) => px.clone(), _ => url.clone() };
